@@ -70,7 +70,7 @@ def run(c, index, tier):
     far = rs.randn(ch.integer("w", 0, 4, "far"), Xb.shape[1]) * 6
     if data.kind == "nonneg":
         far = numpy.abs(far)
-    Xb = numpy.ascontiguousarray(numpy.vstack([Xb, far]))
+    Xb = numpy.ascontiguousarray(numpy.vstack([Xb, far.astype(Xb.dtype)]))  # the dtype the model was fitted on
     m_rows = Xb.shape[0]
     c.nontrivial = True
 
@@ -188,6 +188,8 @@ def run(c, index, tier):
                 out, want = out[solid], want[solid]
             idx = idx[solid]
         rt, at = tol.get(m, R.TOL)
+        if Xb.dtype == numpy.float32 and (rt, at) != R.EXACT:
+            rt, at = max(rt, 1e-4), max(at, 1e-5)  # single-precision arithmetic
         if out.shape != want.shape or not U.arrays_equal(out, want, rt, at):
             bad = None
             if out.shape == want.shape:
